@@ -12,9 +12,119 @@ FILES = [TSC]
 Q = 'partition_parallel'
 
 
+def resolve_key_pass(fn):
+    """Normal form of the key / histogram pass of partition_parallel (in place, idempotent).  Inside the innermost loop body that
+    stores keys[...], scalar locals are put back into the statements that use them:
+
+        k = np.int32(E)                  k = <expr>           -> uses of k read <expr>
+        if k > last: k = last            a clamp written as if -> min(<expr>, last)          (last = npartition - 1 resolved likewise)
+        keys[i] = k
+        counts[t, k] += 1                the value just stored  -> counts[t, keys[i]]
+
+    so that the rules see `keys[i] = min(np.int32(E), npartition - 1); counts[t, keys[i]] += 1` whatever the spelling.  Exact for
+    the integer key: the same values reach the same stores in the same order."""
+    from ..core.srcmodel import clone_pos
+    outer = {}
+    nst = {}
+    for n in ast.walk(fn):
+        if isinstance(n, ast.Name) and isinstance(n.ctx, ast.Store):
+            nst[n.id] = nst.get(n.id, 0) + 1
+    params = {a.arg for a in fn.args.args + fn.args.kwonlyargs}
+    for st in fn.body:
+        if isinstance(st, ast.Assign) and len(st.targets) == 1 and isinstance(st.targets[0], ast.Name) and nst.get(st.targets[0].id) == 1:
+            v = st.value
+            if all(isinstance(x, (ast.BinOp, ast.Name, ast.Constant, ast.operator, ast.expr_context)) for x in ast.walk(v)) \
+                    and all(x.id in params for x in ast.walk(v) if isinstance(x, ast.Name)) and any(isinstance(x, ast.Name) for x in ast.walk(v)):
+                outer[st.targets[0].id] = v
+
+    def pure(e):
+        for x in ast.walk(e):
+            if isinstance(x, ast.Call) and dotted(x.func) not in ('np.int32', 'np.int64', 'int', 'np.float64', 'float', 'min', 'max'):
+                return False
+        return True
+
+    def rewrite(body):
+        if not any(isinstance(x, ast.Assign) and isinstance(x.targets[0], ast.Subscript) and unparse(x.targets[0].value) == 'keys' for x in body):
+            return None
+        env = dict(outer)
+        out = []
+        stored = None      # (text of keys[i], expression stored)
+
+        class S(ast.NodeTransformer):
+            def visit_Name(self, n):
+                if isinstance(n.ctx, ast.Load) and n.id in env:
+                    return ast.copy_location(clone_pos(env[n.id]), n)
+                return n
+
+        def sub(e):
+            return S().visit(clone_pos(e))
+        changed = False
+        for st in body:
+            if isinstance(st, ast.Assign) and len(st.targets) == 1 and isinstance(st.targets[0], ast.Name) and pure(st.value) \
+                    and not any(isinstance(x, ast.Subscript) and unparse(x.value) in ('keys', 'counts') for x in ast.walk(st.value)):
+                env[st.targets[0].id] = sub(st.value)
+                changed = True
+                continue
+            if isinstance(st, ast.If) and not st.orelse and len(st.body) == 1 and isinstance(st.body[0], ast.Assign) and len(st.body[0].targets) == 1 \
+                    and isinstance(st.body[0].targets[0], ast.Name) and st.body[0].targets[0].id in env and isinstance(st.test, ast.Compare) and len(st.test.ops) == 1:
+                v = st.body[0].targets[0].id
+                L = st.body[0].value
+                t = st.test
+                a, b = unparse(t.left), unparse(t.comparators[0])
+                if (isinstance(t.ops[0], ast.Gt) and a == v and b == unparse(L)) or (isinstance(t.ops[0], ast.Lt) and b == v and a == unparse(L)):
+                    env[v] = ast.copy_location(ast.Call(func=ast.Name(id='min', ctx=ast.Load()), args=[env[v], sub(L)], keywords=[]), st)
+                    changed = True
+                    continue
+            new = S().visit(clone_pos(st)) if not isinstance(st, (ast.For, ast.While)) else st
+            if stored is not None:
+                ktxt, kexpr = stored
+
+                class K(ast.NodeTransformer):
+                    def visit_Subscript(self, n):
+                        n = self.generic_visit(n)
+                        return n
+
+                    def generic_visit(self, n):
+                        n = super().generic_visit(n)
+                        return n
+                # occurrences of the stored expression in index position read the value just stored
+                for x in ast.walk(new):
+                    if isinstance(x, ast.Subscript) and unparse(x.value) != 'keys':
+                        elts = x.slice.elts if isinstance(x.slice, ast.Tuple) else None
+                        if elts is not None:
+                            for j, e in enumerate(elts):
+                                if unparse(e) == unparse(kexpr) and not isinstance(e, ast.Name):
+                                    elts[j] = ast.parse(ktxt, mode='eval').body
+                        elif unparse(x.slice) == unparse(kexpr) and not isinstance(x.slice, ast.Name):
+                            x.slice = ast.parse(ktxt, mode='eval').body
+            if isinstance(new, ast.Assign) and isinstance(new.targets[0], ast.Subscript) and unparse(new.targets[0].value) == 'keys':
+                stored = (unparse(new.targets[0]), new.value)
+            out.append(new)
+        return out if changed else None
+
+    def visit(loop):
+        inner = [b for b in loop.body if isinstance(b, ast.For)]
+        for b in inner:
+            visit(b)
+        nb = rewrite(loop.body)
+        if nb is not None:
+            loop.body = nb
+            for st in nb:
+                ast.fix_missing_locations(st)
+                st._parent = loop
+                for n_ in ast.walk(st):
+                    for ch in ast.iter_child_nodes(n_):
+                        ch._parent = n_
+    for lp in [n for n in fn.body if isinstance(n, ast.For)]:
+        visit(lp)
+
+
 def run(chk):
     src = chk.src
     fn = src.func(TSC, Q)
+    resolve_key_pass(fn)
+    from ..core.srcmodel import exit_to_else
+    exit_to_else(fn.body)      # `if weights is not None: ...; return` followed by the unweighted code is the if/else form
     chk.explanation = ('The counting sort of partition_parallel is decided structurally: every store under prange is classified by '
                        'ownership (block-private keys, per-thread histogram rows, private cursors into the output), the histogram '
                        'and the scatter pass use the same block table and keys, the transposed prefix sum is laid out so that cell '
@@ -52,6 +162,14 @@ def run(chk):
         if set(kcls) == {'keys'} and K.lineno < H.lineno and _block_iter(K) == _block_iter(H) and _block_iter(H) is not None \
                 and unparse(K.iter) == unparse(H.iter):
             cls = dict(cls, keys=kcls['keys'])
+        elif set(kcls) == {'keys'} and K.lineno < H.lineno and _inner_loop(K) is None and kcls['keys'] == 'iteration-private' \
+                and unparse(K.iter).replace('numba.', '').replace('nb.', '') in ('prange(len(pos))', 'prange(pos.shape[0])', 'prange(N)') \
+                and (unparse(K.iter).endswith('(N)') is False or any(isinstance(x, ast.Assign) and unparse(x) in ('N = len(pos)', 'N = pos.shape[0]') for x in fn.body)) \
+                and [unparse(x.targets[0].slice) for x in ast.walk(K) if isinstance(x, ast.Assign) and isinstance(x.targets[0], ast.Subscript)
+                     and unparse(x.targets[0].value) == 'keys'] == [K.target.id]:
+            # one parallel pass over all particles, each iteration storing the key of its own particle: every slot is written exactly
+            # once, by one thread, before the (joined) histogram pass reads it
+            cls = dict(cls, keys='block-private')
     ok1 = cls.get('keys') == 'block-private' and cls.get('counts') == 'iteration-private' and set(cls) == {'keys', 'counts'}
     chk.check(ok1, 'C17-R1', TSC, Q, 'histogram stores', f'{cls}', f'histogram pass stores {cls}: a shared histogram row or key slot races', node=H, nf=cls)
     cst = [s for s in by_loop[H] if s.array == 'counts']
@@ -157,7 +275,18 @@ def run(chk):
     chk.check(not pst and not rb and not inplace, 'C17-R6', TSC, Q, 'input left unmodified', '',
               f'stores into the input arrays: {[unparse(x) for x in pst + inplace][:3]}', node=(pst + inplace + [fn])[0])
     rets = [n for n in walk_no_nested(fn) if isinstance(n, ast.Return)]
-    chk.check(len(rets) == 1 and unparse(rets[0].value) == '(psort, starts, wsort)', 'C17-R6', TSC, Q, 'returns (psort, starts, wsort)', '',
+    def _ret_ok(r):
+        if unparse(r.value) == '(psort, starts, wsort)':
+            return True
+        # on the path without weights the third component may be spelled None
+        if unparse(r.value) == '(psort, starts, None)':
+            p_, ch = getattr(r, '_parent', None), r
+            while p_ is not None and p_ is not fn:
+                if isinstance(p_, ast.If) and ((unparse(p_.test) == 'weights is not None' and ch in p_.orelse) or (unparse(p_.test) == 'weights is None' and ch in p_.body)):
+                    return True
+                ch, p_ = p_, getattr(p_, '_parent', None)
+        return False
+    chk.check(len(rets) >= 1 and all(_ret_ok(r) for r in rets), 'C17-R6', TSC, Q, 'returns (psort, starts, wsort)', '',
               f'returns {[unparse(r.value) for r in rets]}', node=rets[0] if rets else fn)
     # ---- R6: the outputs have the element type of their inputs (a buffer of another type silently casts every value)
     for out, inp in (('psort', 'pos'), ('wsort', 'weights')):
@@ -226,6 +355,22 @@ def layout(chk, fn, H, scat):
     ok_alloc = len(pa) == 1 and unparse(pa[0].value.args[0]) in ('nthread * npartition', 'npartition * nthread')
     ok0 = len(p0) == 1 and unparse(p0[0].value) == '0'
     ok1 = len(p1) == 1 and unparse(p1[0].value) == 'np.cumsum(counts.T)[:-1]'
+    # the same exclusive prefix sum as `inclusive sum minus own count`:  pointers = np.cumsum(C) - C.ravel()  with C = counts.T
+    from ..core.srcmodel import single_defs, expand_names
+    if not p1 and not pa:
+        sd_ = {k_: v_ for k_, v_ in single_defs(fn).items() if isinstance(v_, (ast.Attribute, ast.Name))}      # plain aliases (counts_pt = counts.T)
+        for cand in find(lambda s: unparse(s.targets[0]) == 'pointers' and isinstance(s.value, ast.BinOp) and isinstance(s.value.op, ast.Sub)):
+            l_, r_ = expand_names(cand.value.left, sd_), expand_names(cand.value.right, sd_)
+            flat = None
+            if isinstance(r_, ast.Call) and isinstance(r_.func, ast.Attribute) and r_.func.attr in ('ravel', 'flatten') and not r_.args and not r_.keywords:
+                flat = unparse(r_.func.value)
+            elif isinstance(r_, ast.Call) and isinstance(r_.func, ast.Attribute) and r_.func.attr == 'reshape' and [unparse(a) for a in r_.args] == ['-1'] and not r_.keywords:
+                flat = unparse(r_.func.value)
+            elif isinstance(r_, ast.Call) and dotted(r_.func) == 'np.ravel' and len(r_.args) == 1 and not r_.keywords:
+                flat = unparse(r_.args[0])
+            if unparse(l_) == 'np.cumsum(counts.T)' and flat == 'counts.T':
+                ok_alloc = ok0 = ok1 = True
+                p1 = [cand]
     loopform = _prefix_loop(fn)
     if loopform is not None and not p1 and not pr:
         ok_l, why_l, node_l = loopform
@@ -285,7 +430,7 @@ def c07_like_key(chk, fn):
         il = None
         for lp in own.prange_loops(fn):
             if any(keyst[0] is x for x in ast.walk(lp)):
-                il = _inner(lp)
+                il = _inner(lp) or (lp.target.id if isinstance(lp.target, ast.Name) else None)
 
         def inp(node):
             if isinstance(node, ast.Subscript) and unparse(node) == f'pos[{il}, coord]':
